@@ -742,9 +742,25 @@ impl G {
         if t.starts_with('\n') || t.ends_with('\n') || t.contains("\n\n") {
             return "blank-line".into();
         }
-        let (ok, _pos, label) = self.matches_why(&t, Mode::Permissive);
+        // a reference that is fine except for a slash at an edge or a double slash: the slash rule
+        if let G::NoSlashEdges(inner) = self {
+            if (t.starts_with('/') || t.ends_with('/') || t.contains("//"))
+                && inner.matches(&t, Mode::Permissive)
+            {
+                return "slash-rule".into();
+            }
+        }
+        let (ok, pos, label) = self.matches_why(&t, Mode::Permissive);
         if ok {
             "none".into()
+        } else if label == "trailing" {
+            // what is left over: a further line, or more characters on the same line
+            let rest: String = t.chars().skip(pos).take(1).collect();
+            if rest == "\n" {
+                "at-trailing:extra-line".into()
+            } else {
+                "at-trailing:overflow".into()
+            }
         } else if label.ends_with("too-many") {
             // too many lines: with or without a leading identifier line are different situations
             let first = if t == "/" || t.starts_with("/\n") {
